@@ -11,11 +11,16 @@ def c14_check(op, x, sx, y, sy, n, ux, uy, left_kind, right_kind, ns):
     from measured import Measurement
     from measured.conversions import ConversionNotFound
     UX, UY = eval(ux, ns), eval(uy, ns)
+    from decimal import Decimal as _D
+    if isinstance(x, str): x = _D(x)
+    if isinstance(y, str): y = _D(y)
     A = Measurement(x * UX, sx) if left_kind == "m" else x * UX
     B = Measurement(y * UY, sy) if right_kind == "m" else y * UY
     if left_kind != "m": sx = 0
     if right_kind != "m": sy = 0
     bad = []
+    X, Y = x, y                      # as given (int, float or Decimal): what the library sees
+    x, y = (float(x) if not isinstance(x, int) else x), (float(y) if not isinstance(y, int) else y)   # what the oracle computes with
     try:
         if op == "pow":
             if left_kind != "m": return bad
@@ -73,6 +78,12 @@ def run(tier, seed):
         if op in ("add", "sub") and eval(ux, ns).dimension is not eval(uy, ns).dimension:
             uy = ux
         x, y = rng.choice(xs), rng.choice(xs)
+        if op in ("mul", "div") and rng.random() < 0.25:
+            # a Decimal measurand on one side (as text, so that the replay file can carry it); exponent-free operators only
+            if rng.random() < 0.5:
+                x = rng.choice(["2.5", "-3", "40"])
+            else:
+                y = rng.choice(["2.5", "-3", "40"])
         sx, sy = rng.choice([0, 0.1, 0.5, 2]), rng.choice([0, 0.2, 0.25])
         e = rng.choice([-4, -3, -2, -1, 0, 1, 2, 3, 4])
         lk, rk = rng.choice(["m", "m", "q"]), rng.choice(["m", "m", "q"])
